@@ -1176,6 +1176,30 @@ enum K {
     Bodyless,
 }
 
+/// Every sequence of 0-3 SASL frames over the eleven frame kinds, one per enumeration case
+/// (1 + 11 + 121 + 1331 = 1464 cases per seed; the seed picks the mechanism, the network and the schedule)
+pub const FRAME_SEQUENCE_CASES: u64 = 1464;
+
+pub async fn run_frame_sequences_enumerated() {
+    const KINDS: [K; 11] = [K::InitGood, K::InitBadCreds, K::InitOtherMech, K::InitNoResponse, K::ResponseGood, K::ResponseTampered, K::ResponseGarbage, K::Mechanisms, K::Challenge, K::OutcomeOk, K::Bodyless];
+    let mech = pick(&[Mech::Plain, Mech::Sha1, Mech::Sha256, Mech::Sha512]);
+    let mut c = sim::case() % FRAME_SEQUENCE_CASES;
+    let mut len = 0usize;
+    let mut size = 1u64;
+    while c >= size {
+        c -= size;
+        len += 1;
+        size *= 11;
+    }
+    let mut seq = Vec::new();
+    for _ in 0..len {
+        seq.push(KINDS[(c % 11) as usize]);
+        c /= 11;
+    }
+    sim::probe("sasl-frame-sequence-enumerated");
+    frame_sequence(mech, seq).await
+}
+
 pub async fn run_frame_sequences() {
     let mech = pick(&[Mech::Plain, Mech::Sha1, Mech::Sha256, Mech::Sha512]);
     let scram = mech != Mech::Plain;
@@ -1190,6 +1214,11 @@ pub async fn run_frame_sequences() {
             seq.insert(at, pick(&kinds));
         }
     }
+    frame_sequence(mech, seq).await
+}
+
+async fn frame_sequence(mech: Mech, seq: Vec<K>) {
+    let scram = mech != Mech::Plain;
     let valid_seq: Vec<K> = if scram { vec![K::InitGood, K::ResponseGood] } else { vec![K::InitGood] };
     let (nab, nba, nd) = world::draw_net(false);
     sim::set_config(format!("variant=frame-sequences listener-mechanism={} sequence={:?} {}", mech.name(), seq, nd));
